@@ -159,7 +159,7 @@ class _Slots:
                     self.held.append(f)
                 except OSError:
                     f.close()
-            if len(self.held) >= self.want or (self.held and time.time() - t0 > 600):
+            if len(self.held) >= self.want or (self.held and time.time() - t0 > 150):
                 return self
             for f in self.held:
                 f.close()
@@ -221,7 +221,7 @@ def tlc(module, cfg, scratch, env=None, workers=None, timeout=1800, args=(), hea
 
 def tlc_model_check(ctx, module, cfg, expect_ok=True, **kw):
     """Design-level run: Model |= Judges.  A failure is a spec problem => Infra."""
-    kw.setdefault("workers", NCPU)
+    kw.setdefault("workers", min(NCPU, 8))
     r = tlc(module, cfg, ctx.scratch, **kw)
     ctx.states += r.distinct
     ctx.transitions += r.generated
@@ -377,6 +377,12 @@ class Ctx:
 
     def quick(self):
         return self.tier == "quick"
+
+    def tick(self, name):
+        """record the wall time of the stage that just ended"""
+        now = time.time()
+        self.extra.setdefault("stage_wall_s", {})[name] = round(now - getattr(self, "_tick", self.t0), 1)
+        self._tick = now
 
     def cleanup(self):
         shutil.rmtree(self.scratch, ignore_errors=True)
